@@ -279,6 +279,47 @@ func TestVerif_C10(t *testing.T) {
 		}
 	}
 
+	// ---- part 6, first pass (run here, before the large enumerations, so that a run cut short by its time budget has
+	// offered every short token sequence in every context): token sequences shorter than the bound
+	tokLen := 3
+	if p.Thorough {
+		tokLen = 4
+	}
+	res.Bounds["token_sequence_length"] = tokLen
+	res.Bounds["token_alphabet"] = len(c10Tokens)
+	res.Bounds["token_contexts"] = fmt.Sprintf("%d for sequences of up to 2 tokens, the first three up to the bound - 1, route body only at the bound", len(c10TokCtxs))
+	// two passes, shortest first (so that a run cut short by its time budget has at least offered every short
+	// sequence in every context): pass 1 = sequences shorter than the bound, pass 2 = sequences at the bound
+	var trec func(seq []string, pass int) bool
+	trec = func(seq []string, pass int) bool {
+		atBound := len(seq) == tokLen
+		if (pass == 1 && !atBound || pass == 2 && atBound) && (len(seq) > 1 || (len(seq) == 1 && p.Shard == 0)) { // length-1 sequences once
+			body := strings.Join(seq, " ")
+			for ci, cx := range c10TokCtxs {
+				if (atBound && ci != 1) || (len(seq) > 2 && ci > 2) {
+					continue // the longest sequences only in the route-body context; sub-parser contexts up to 2 tokens
+				}
+				if !submit(&c10Msg{typ: 'S', data: []byte(cx.Pre + body + cx.Post), steps: 5, label: fmt.Sprintf("token sequence %q (%s)", seq, cx.Name)}) {
+					return false
+				}
+				res.Distinct++
+			}
+		}
+		if atBound || (pass == 1 && len(seq) == tokLen-1) {
+			return true
+		}
+		for _, tk := range c10Tokens {
+			if len(seq) == 1 && !mine() {
+				continue
+			}
+			if !trec(append(append([]string{}, seq...), tk), pass) {
+				return false
+			}
+		}
+		return true
+	}
+	tokPass1 := trec(nil, 1)
+
 	// ---- part 3: instruction sequences
 	seqLen := 2
 	if p.Thorough {
@@ -389,45 +430,8 @@ seqs:
 		sup.Drain()
 	}
 
-	// ---- part 6: token sequences
-	tokLen := 3
-	if p.Thorough {
-		tokLen = 4
-	}
-	res.Bounds["token_sequence_length"] = tokLen
-	res.Bounds["token_alphabet"] = len(c10Tokens)
-	res.Bounds["token_contexts"] = fmt.Sprintf("%d for sequences of up to 2 tokens, the first three up to the bound - 1, route body only at the bound", len(c10TokCtxs))
-	// two passes, shortest first (so that a run cut short by its time budget has at least offered every short
-	// sequence in every context): pass 1 = sequences shorter than the bound, pass 2 = sequences at the bound
-	var trec func(seq []string, pass int) bool
-	trec = func(seq []string, pass int) bool {
-		atBound := len(seq) == tokLen
-		if (pass == 1 && !atBound || pass == 2 && atBound) && (len(seq) > 1 || (len(seq) == 1 && p.Shard == 0)) { // length-1 sequences once
-			body := strings.Join(seq, " ")
-			for ci, cx := range c10TokCtxs {
-				if (atBound && ci != 1) || (len(seq) > 2 && ci > 2) {
-					continue // the longest sequences only in the route-body context; sub-parser contexts up to 2 tokens
-				}
-				if !submit(&c10Msg{typ: 'S', data: []byte(cx.Pre + body + cx.Post), steps: 5, label: fmt.Sprintf("token sequence %q (%s)", seq, cx.Name)}) {
-					return false
-				}
-				res.Distinct++
-			}
-		}
-		if atBound || (pass == 1 && len(seq) == tokLen-1) {
-			return true
-		}
-		for _, tk := range c10Tokens {
-			if len(seq) == 1 && !mine() {
-				continue
-			}
-			if !trec(append(append([]string{}, seq...), tk), pass) {
-				return false
-			}
-		}
-		return true
-	}
-	if trec(nil, 1) {
+	// ---- part 6, second pass: token sequences at the length bound (route body)
+	if tokPass1 {
 		trec(nil, 2)
 	}
 
